@@ -64,7 +64,15 @@ def check_pt(ctx, rd, cd, sys_arg, dim_form, dtype, variable=False):
         if impl[0] == "ok":
             impl = ("ok", np.asarray(impl[1].value))
     else:
+        dim_before = np.array(dim_py, copy=True) if isinstance(dim_py, np.ndarray) else None
+        sys_before = np.array(sys_arg, copy=True) if isinstance(sys_arg, np.ndarray) else None
         impl = call(partial_transpose, present(ctx.rng, X, allow_dtype=False), sys_arg, dim_py)
+        if (dim_before is not None and not np.array_equal(dim_before, dim_py)) or (sys_before is not None and not np.array_equal(sys_before, sys_arg)):
+            ctx.violation("partial_transpose: the caller's dim / sys array was modified in place (the same call repeated then means something else)",
+                          {"function": "partial_transpose", "args": {"rd": rd, "cd": cd, "dim_form": dim_form, "dim_before": None if dim_before is None else dim_before.tolist(),
+                                                                     "dim_after": np.asarray(dim_py).tolist() if dim_before is not None else None}, "check": "purity"})
+            if dim_before is not None:
+                dim_py[...] = dim_before
     desc = {"fn": "partial_transpose", "rd": rd, "cd": cd, "sys": sys_js, "sys_form": type(sys_arg).__name__, "dim_form": dim_form, "dtype": dtype, "variable": variable}
     sl = [sys_js] if isinstance(sys_js, int) else ([1] if sys_js is None else list(sys_js))
     n = len(rd)
@@ -74,7 +82,30 @@ def check_pt(ctx, rd, cd, sys_arg, dim_form, dtype, variable=False):
         nontriv = False
     ctx.case(desc, nontriv, f"pt/{dim_form}/{'var' if variable else dtype}/sys={type(sys_arg).__name__}/{'square' if rd == cd else 'rect'}")
     model = ctx.lean().ask("partial_transpose", {"rows": R, "cols": C, "data": list(range(R * C)), "sys": sys_js, "dim": dim_js})
-    return compare(ctx, "partial_transpose", desc, impl, model, "pT_eq_spec")
+    ok = compare(ctx, "partial_transpose", desc, impl, model, "pT_eq_spec")
+    # linearity at small and large scale (pT_linear): the operator times a power of two gives the result times that power, entry for entry;
+    # and a nearly Hermitian operator (Hermitian part of norm ~1e2 plus an anti-Hermitian part of size 2^-40) is not treated as Hermitian
+    if ok and impl[0] == "ok" and not variable and dtype in ("float64", "complex128") and ctx.evaluations % 4 == 0:
+        Xf = np.asarray(X)
+        for kexp in (-40, -55, 30):
+            sc = 2.0 ** kexp
+            outs = call(partial_transpose, Xf * sc, sys_arg, dim_py)
+            ctx.count(f"pt/scaled/2^{kexp}")
+            if outs[0] != "ok" or not np.array_equal(np.asarray(outs[1]), np.asarray(impl[1]) * sc):
+                ctx.violation(f"partial_transpose: the operator scaled by 2^{kexp} does not give the result scaled by 2^{kexp}",
+                              {"function": "partial_transpose", "args": dict(desc, scale_exp=kexp), "theorem": "pT_linear"})
+                return False
+        if R == C:
+            H = (Xf + Xf.conj().T).astype(complex if np.iscomplexobj(Xf) else float)
+            eps = 2.0 ** -40
+            near = H + eps * (Xf - Xf.conj().T)              # exact in floating point: entries are small integers and multiples of 2^-40
+            o1, o2, o3 = call(partial_transpose, near, sys_arg, dim_py), call(partial_transpose, H, sys_arg, dim_py), call(partial_transpose, Xf - Xf.conj().T, sys_arg, dim_py)
+            ctx.count("pt/nearly-hermitian")
+            if not (o1[0] == o2[0] == o3[0] == "ok") or not np.array_equal(np.asarray(o1[1]), np.asarray(o2[1]) + eps * np.asarray(o3[1])):
+                ctx.violation("partial_transpose is not additive on H + 2^-40 K (H Hermitian, K anti-Hermitian): a nearly Hermitian operator is handled as a Hermitian one",
+                              {"function": "partial_transpose", "args": dict(desc, check="nearly-hermitian"), "theorem": "pT_linear"})
+                return False
+    return ok
 
 
 def compare(ctx, what, desc, impl, model, thm):
